@@ -76,6 +76,10 @@ def run_unit(spec):
                  "functions": [], "bounded": {"name": f"bounded/{name}", "bound": bound, "evaluations": n,
                                               "failures": fails,
                                               "reason": "body computes through float (outside the verifier's subset)"}}]
+    from checks.l2props import FLOAT_BODIES, _bounded
+    if name in FLOAT_BODIES:
+        out += _bounded(name, "validation of the float model (the function is proved under the standard model of "
+                              "IEEE-754 rounding)")
     return out
 
 
